@@ -31,15 +31,15 @@ CHECKS = {
         'technique': 'contract-based deductive verification (Verus, real bodies extracted per run): representation invariant + frame conditions',
     },
     'C14': {
-        'text': 'Partial (reader layer of two of the four formats): unbounded deductive proof (Verus) of jaspar::Reader::{new, next} and jaspar16::Reader::{new, next} on their verbatim bodies against an abstract pending-text state: a successful next() hands the parser a prefix of the pending text and removes exactly the consumed prefix, so records are cut from consecutive gap-free slices of the file in order, independently of stream chunking (by the assumed contract of read_until) and of buffer compaction. Grammars (nom), transfac/uniprobe readers and matrix filling are NOT proved; they are exercised by the native sweep (all four formats, generated files with 1..120 records, 8 buffer capacities) in the thorough tier.',
-        'design_ref': 'DESIGN.md section 5, C14',
-        'note': 'Trusted: Verus/Z3; std read_until / from_utf8 / copy_within contracts (A-IO, A-V3); the nom grammar contract (A-NOM1..4, unverified). Field-level fidelity ("as written", column of its symbol) is NOT decided by the proof.',
+        'text': 'Reader layer of all four formats and three of the four matrix builders: unbounded deductive proof (Verus) on the verbatim bodies of jaspar::Reader::{new, next}, jaspar16::Reader::{new, next}, transfac::Reader::{new, next}, uniprobe::Reader::{new, next} against an abstract pending-text state (buffered text + rest of the stream), and of build_matrix in jaspar/jaspar16/uniprobe parse.rs. JASPAR: a successful next() hands the parser a prefix of the pending text and removes exactly the consumed prefix (consecutive gap-free slices, in order, independent of chunking and of buffer compaction). TRANSFAC: next() hands the grammar exactly the first entry of the pending text (all lines through the first line starting with "//"), removes exactly that, and returns None only when nothing is pending; new() consumes nothing or exactly the VV header entry. UniPROBE: the identifier is parsed from the first non-blank pending line, the columns from the following lines that parse as columns (blank lines skipped), exactly those lines are removed, None only when only blank lines were pending. build_matrix: every entry is stored in the row of its position and the column of its symbol, every other cell is zero, and a table is refused only for ragged columns or a repeated symbol. The nom grammars (and the TRANSFAC matrix construction, which lives inside one) are NOT proved; they enter through assumed contracts and are exercised by the native sweep (all four formats, generated files with 1..120 records and up to 106 positions, 8 buffer capacities).',
+        'design_ref': 'DESIGN.md section 5, C14; section 11.7',
+        'note': 'Trusted: Verus/Z3; std read_until / read_line / from_utf8 / copy_within / String contracts (A-IO1, A-IO1L, A-UTF8, A-S1, A-V3); the nom grammar contracts (A-NOM1..7, unverified). Field-level fidelity of the text fields ("as written") is NOT decided by the proof.',
         'technique': 'contract-based deductive verification (Verus, real bodies extracted per run) with an abstract pending-text invariant; native sweep as bounded cross-check',
     },
     'C15': {
-        'text': 'Partial: unbounded deductive proof (Verus) that jaspar::Reader and jaspar16::Reader {new, next} never panic (slice ranges, usize subtraction/addition, truncate, copy_within) for every byte stream and chunking, from a representation invariant preserved by every successful call. The four defects found (empty input underflow, unimplemented!() on ragged rows, input[0] on an empty column list, unreachable!() via a streaming combinator) were reproduced natively and fixed. Parsers, transfac/uniprobe readers: bounded native sweep only (thorough tier).',
-        'design_ref': 'DESIGN.md section 5, C15; section 8 (D6a-d fixed)',
-        'note': 'Trusted: as C14. Termination of a consumer that stops at the first error/None follows from each next() terminating (no loops in the JASPAR readers); not proved for uniprobe/transfac whose next() contain loops.',
+        'text': 'Unbounded deductive proof (Verus) that the reader layer of all four formats - jaspar, jaspar16, transfac, uniprobe Reader::{new, next} - and the three build_matrix functions never panic and always return, for every byte stream and chunking, from representation invariants preserved by every call (so the reader stays usable after an error): slice ranges, usize arithmetic, truncate / copy_within (JASPAR); the String slicing offset `last` in range and on a UTF-8 character boundary, `last += n` without overflow, termination of both read loops (TRANSFAC); termination of the three nested loops of uniprobe next() (the column loop needs the assumed fact that the column grammar rejects the empty line); every matrix index inside the matrix (build_matrix). The four defects found (empty input underflow, unimplemented!() on ragged rows, input[0] on an empty column list, unreachable!() via a streaming combinator) were reproduced natively and fixed. The nom grammars themselves: bounded native sweep only (every prefix and thousands of mutations of generated files, 3 buffer capacities).',
+        'design_ref': 'DESIGN.md section 5, C15; section 8 (D6a-d fixed); section 11.7',
+        'note': 'Trusted: as C14 (read_line may fail on invalid UTF-8: buffer unchanged, stream advanced). A consumer that stops at the first error/None terminates because each next() is proved to terminate (decreases clauses on every loop).',
         'technique': 'contract-based deductive verification (Verus, real bodies extracted per run); native sweep as bounded cross-check',
     },
     'C18': {
